@@ -404,6 +404,11 @@ func (*Ufs) Create(req *SrvReq) {
 		return
 	}
 
+	if tc.Name == "" || tc.Name == "." || tc.Name == ".." || strings.Contains(tc.Name, "/") {
+		req.RespondError(&Error{"invalid file name", EINVAL})
+		return
+	}
+
 	path := fid.path + "/" + tc.Name
 	var e error
 	var file *os.File
